@@ -604,6 +604,74 @@ pub fn replay_property<P: Property>(p: P, path: &Path) -> i32 {
 // ---------------------------------------------------------------------------------------------
 // coverage-guided fuzzing: the fuzzer's bytes are the random choices of the property's own strategy
 
+static FUZZ_MODE: std::sync::atomic::AtomicBool = std::sync::atomic::AtomicBool::new(false);
+
+/// In fuzz mode every random choice must be read from the one byte stream, in order. proptest's own union
+/// (`prop_oneof!`, `option::of`, `prop_flat_map`) forks the runner's RNG for lazily built shrink neighbours,
+/// which with the pass-through RNG halves the remaining input at every union. `OneOf` is the harness's union:
+/// outside fuzz mode it *is* proptest's weighted union (same distribution, same shrinking); in fuzz mode it picks
+/// an alternative from the stream and builds only that one.
+pub fn set_fuzz_mode(on: bool) {
+    FUZZ_MODE.store(on, Ordering::Relaxed);
+}
+
+pub struct OneOf<T: Debug + 'static> {
+    alts: Vec<(u32, BoxedStrategy<T>)>,
+    normal: BoxedStrategy<T>,
+}
+
+impl<T: Debug + 'static> Debug for OneOf<T> {
+    fn fmt(&self, f: &mut std::fmt::Formatter<'_>) -> std::fmt::Result {
+        write!(f, "OneOf({} alternatives)", self.alts.len())
+    }
+}
+
+impl<T: Debug + 'static> OneOf<T> {
+    pub fn new(alts: Vec<(u32, BoxedStrategy<T>)>) -> Self {
+        let normal = proptest::strategy::Union::new_weighted(alts.clone()).boxed();
+        OneOf { alts, normal }
+    }
+}
+
+impl<T: Debug + 'static> Strategy for OneOf<T> {
+    type Tree = Box<dyn proptest::strategy::ValueTree<Value = T>>;
+    type Value = T;
+    fn new_tree(&self, runner: &mut proptest::test_runner::TestRunner) -> proptest::strategy::NewTree<Self> {
+        if !FUZZ_MODE.load(Ordering::Relaxed) {
+            return self.normal.new_tree(runner);
+        }
+        use proptest::prelude::RngCore;
+        let total: u64 = self.alts.iter().map(|(w, _)| *w as u64).sum();
+        let mut pick = (runner.rng().next_u32() as u64 * total) >> 32;
+        for (w, s) in &self.alts {
+            if pick < *w as u64 {
+                return s.new_tree(runner);
+            }
+            pick -= *w as u64;
+        }
+        self.alts.last().unwrap().1.new_tree(runner)
+    }
+}
+
+/// `proptest::option::of` without the RNG fork (see `OneOf`)
+pub fn opt_of<S: Strategy + 'static>(s: S) -> OneOf<Option<S::Value>>
+where
+    S::Value: Debug + Clone + 'static,
+{
+    OneOf::new(vec![(1, proptest::strategy::Just(None).boxed()), (1, s.prop_map(Some).boxed())])
+}
+
+/// the harness's `prop_oneof!`: same syntax as proptest's, builds a `OneOf`
+#[macro_export]
+macro_rules! prop_oneof {
+    ($($w:expr => $s:expr),+ $(,)?) => {
+        $crate::engine::OneOf::new(vec![$(($w as u32, proptest::strategy::Strategy::boxed($s))),+])
+    };
+    ($($s:expr),+ $(,)?) => {
+        $crate::engine::OneOf::new(vec![$((1u32, proptest::strategy::Strategy::boxed($s))),+])
+    };
+}
+
 thread_local! {
     static FUZZ_STRATEGY: RefCell<Option<Box<dyn std::any::Any>>> = const { RefCell::new(None) };
     static FUZZ_OPEN: RefCell<Option<Vec<String>>> = const { RefCell::new(None) };
@@ -613,6 +681,7 @@ thread_local! {
 /// makes reads the next bytes of `data`, zeros when exhausted) and run it. Returns the failure, if any,
 /// as (case JSON, reason).
 pub fn fuzz_one<P: Property>(p: &P, data: &[u8]) -> Option<(String, String)> {
+    set_fuzz_mode(true);
     use proptest::strategy::ValueTree;
     use proptest::test_runner::{Config, RngAlgorithm, TestRng, TestRunner};
     let open: Vec<String> = FUZZ_OPEN.with(|o| {
@@ -632,6 +701,10 @@ pub fn fuzz_one<P: Property>(p: &P, data: &[u8]) -> Option<(String, String)> {
         let mut runner = TestRunner::new_with_rng(Config { failure_persistence: None, ..Config::default() }, rng);
         strat.new_tree(&mut runner).ok().map(|t| t.current())
     })?;
+    if std::env::var("VFUZZ_DEBUG").is_ok() {
+        let j = serde_json::to_string(&case).unwrap_or_default();
+        eprintln!("case: {}", &j[..j.len().min(600)]);
+    }
     let (r, _cx) = exec(p, &case, &open);
     match r {
         Ok(()) => None,
@@ -639,8 +712,35 @@ pub fn fuzz_one<P: Property>(p: &P, data: &[u8]) -> Option<(String, String)> {
     }
 }
 
+/// How many of `n` recorded random cases are regenerated identically from their recorded bytes.
+pub fn fuzz_roundtrip<P: Property>(p: &P, n: usize) -> (usize, Option<(String, String)>) {
+    set_fuzz_mode(true);
+    use proptest::strategy::ValueTree;
+    use proptest::test_runner::{Config, RngAlgorithm, TestRng, TestRunner};
+    let strat = p.strategy(Tier::Thorough);
+    let mut same = 0;
+    let mut first_diff = None;
+    for i in 0..n {
+        let mut s = [0u8; 32];
+        s[..8].copy_from_slice(&(i as u64 + 1).to_le_bytes());
+        let mut r1 = TestRunner::new_with_rng(Config { failure_persistence: None, ..Config::default() }, TestRng::from_seed(RngAlgorithm::Recorder, &s));
+        let a = strat.new_tree(&mut r1).unwrap().current();
+        let bytes = r1.bytes_used();
+        let mut r2 = TestRunner::new_with_rng(Config { failure_persistence: None, ..Config::default() }, TestRng::from_seed(RngAlgorithm::PassThrough, &bytes));
+        let b = strat.new_tree(&mut r2).unwrap().current();
+        let (ja, jb) = (serde_json::to_string(&a).unwrap(), serde_json::to_string(&b).unwrap());
+        if ja == jb {
+            same += 1;
+        } else if first_diff.is_none() {
+            first_diff = Some((ja, jb));
+        }
+    }
+    (same, first_diff)
+}
+
 /// Bytes that make `fuzz_one` generate ordinary random cases (recorded from the ChaCha generator): a starting corpus.
 pub fn fuzz_seed_inputs<P: Property>(p: &P, n: usize, seed: u64) -> Vec<Vec<u8>> {
+    set_fuzz_mode(true);
     use proptest::test_runner::{Config, RngAlgorithm, TestRng, TestRunner};
     let strat = p.strategy(Tier::Thorough);
     let mut out = vec![];
